@@ -890,10 +890,22 @@ def legacy14_cases(ctx, rng):
         for n in (131073, 200000):
             add(hdr + bytes([0x40 | (n >> 16), (n >> 8) & 255, n & 255]) + bytes(rng.randrange(256) for _ in range(64)) * (n // 64) + bytes(n % 64) + bytes.fromhex("c00000"),
                 "legacy14-oversize-raw:v0.%d" % v, cap=n + 16)
+        if v == 4:   # the only one of the four with a streaming decoder: several seeds, so that some segmentation makes it LOAD the block into its 128 KiB input buffer
+            for _ in range(4):
+                n = 140000
+                add(hdr + bytes([0x40 | (n >> 16), (n >> 8) & 255, n & 255]) + bytes(range(256)) * (n // 256) + bytes(n % 256) + bytes.fromhex("c00000"),
+                    "legacy14-oversize-raw-stream:v0.4", cap=n + 16)
     for v, fr in valid:
         for dl in (1, 3, 4, 8, 40, 300):
             add(fr, "legacy14-dict:%d" % dl, dict_=rng.randbytes(dl))
-        for i in range(100 if quick else 1500):
+        # the sequence bitstream is read backwards from the end of the block (the 3 bytes behind it are the end mark): initial FSE states, first offsets
+        for j in range(max(5, len(fr) - 3 - 24), len(fr) - 3):
+            for x in (0x00, 0xff, fr[j] ^ 0x80, fr[j] ^ 0x01, fr[j] ^ 0x10, (fr[j] + 1) & 255):
+                if x != fr[j]:
+                    b = bytearray(fr)
+                    b[j] = x
+                    add(bytes(b), "legacy14-mut-tail:v0.%d" % v)
+        for i in range(200 if quick else 1500):
             b = bytearray(fr)
             r = rng.random()
             if r < 0.12:
@@ -935,7 +947,7 @@ def legacy14_pass(ctx, defs):
         one = fd.get("one", "")
         nacc += one.startswith("OK")
         o = c["origin"].split(":")[0]
-        if o in ("legacy14-valid", "legacy14-raw", "legacy14-oversize-raw", "legacy14-empty") and not one.startswith("OK"):
+        if o in ("legacy14-valid", "legacy14-raw", "legacy14-oversize-raw", "legacy14-oversize-raw-stream", "legacy14-empty") and not one.startswith("OK"):
             ctx.violation(replay_of(c, result=out[c["id"]][:400], variant="asan-legacy1"),
                           what="a valid %s frame is refused by ZSTD_decompress in the ZSTD_LEGACY_SUPPORT=1 build: %s" % (c["origin"], one[:80]))
         if o == "legacy14-valid" and one.startswith("OK") and fd.get("dctx") != "OK:239":
@@ -1347,7 +1359,7 @@ def evaluate(ctx, cd, model_exe, cases, out, crashes, npmax, variant):
                               what="decoder oracle failed on a %s input (%s build): %s" % (c["origin"], variant, fl),
                               key=("C03-block-api-empty-insertblock-loses-prefix" if (c["cmd"] == "K" and fl == "EMPTYOP") else
                                    "C03-copydctx-table-pointers-into-source" if (c["cmd"] == "C" and fl == "COPYDIFF") else
-                                   "C03-single-call-after-stream-error-keeps-stream-stage" if (c["cmd"] == "R" and fl == "RECOVER") else None))
+                                   "C03-single-call-after-stream-error-keeps-stream-stage" if (c["cmd"] == "R" and set(fl.split(",")) <= {"RECOVER", "STAGE"}) else None))
         o = c["origin"].split(":")[0]
         hist[o] = hist.get(o, 0) + 1
         if c["cmd"] == "K" and variant == "asan":
